@@ -80,6 +80,23 @@ pub fn run(seed: u64, count: usize, _thorough: bool, out: &mut Out, tmp: &str) {
                 }
             }
         }
+        // in the files with wrapping numbers the record on which a number wraps is a hydrogen
+        if cfg.wraps {
+            let (mut prev_serial, mut prev_res) = (0usize, 0isize);
+            for r in recs.iter_mut() {
+                if let pdbgen::Rec::Atom(a) = r {
+                    // (a residue number that wraps; not an atom serial number: without its wrap record two atoms of the
+                    // text would share a serial number and the ANISOU records could not tell them apart)
+                    if a.resnum == 0 && prev_res == 9_999 && !(a.serial == 0 && prev_serial == 99_999) {
+                        a.element = "H".into();
+                        a.name = "H".into();
+                        a.atf = None;
+                    }
+                    prev_serial = a.serial;
+                    prev_res = a.resnum;
+                }
+            }
+        }
         let text = pdbgen::text(&mut rng, &recs);
         let n_h = recs.iter().filter(|r| matches!(r, pdbgen::Rec::Atom(a) if is_hydrogen(&a.element, &a.name))).count();
         out.count(&format!("pdb:hydrogen-records:{}", n_h.min(3)));
